@@ -59,6 +59,25 @@ class Tup:
 
 
 @dataclass(frozen=True)
+class Sgn:
+    """an unknown number known to be >= 0 ('+') or <= 0 ('-')"""
+    s: str
+
+
+def _is_num(v) -> bool:
+    return isinstance(v, Const) and isinstance(v.v, (int, float)) and not isinstance(v.v, bool)
+
+
+def sign_of(v) -> str:
+    """'+' (>=0), '-' (<=0), '0', or '?'"""
+    if _is_num(v):
+        return "0" if v.v == 0 else "+" if v.v > 0 else "-"
+    if isinstance(v, Sgn):
+        return v.s
+    return "?"
+
+
+@dataclass(frozen=True)
 class Obj:
     oid: object
 
@@ -68,6 +87,12 @@ def join_val(a, b):
         return TOP
     if a == b:
         return a
+    sa_, sb_ = sign_of(a), sign_of(b)
+    if "?" not in (sa_, sb_) and (isinstance(a, Sgn) or isinstance(b, Sgn) or (_is_num(a) and _is_num(b))):
+        if {sa_, sb_} <= {"+", "0"}:
+            return Sgn("+")
+        if {sa_, sb_} <= {"-", "0"}:
+            return Sgn("-")
     if isinstance(a, Tup) and isinstance(b, Tup) and len(a.items) == len(b.items):
         return Tup(tuple(join_val(x, y) for x, y in zip(a.items, b.items)))
     return TOP
@@ -341,6 +366,7 @@ class Interp:
                  axioms: Optional[List[Tuple[str, str, frozenset]]] = None,
                  nonempty_loops: Optional[Set[str]] = None,
                  local_domains: Optional[Dict[str, frozenset]] = None,
+                 split_vars: Optional[List[str]] = None,
                  maxp: Optional[int] = None):
         self.prog = prog
         self.fi = fi
@@ -357,12 +383,14 @@ class Interp:
         self.idioms = idioms
         self.axioms = list(axioms or [])
         self.nonempty_loops = set(nonempty_loops or ())
+        self.split_vars = list(split_vars or [])
         if maxp:
             self.MAXP = maxp
         self.locals = self._locals()
         self.test_names, self.stable = self._test_names_and_stable()
         self.term_domain: Dict[str, frozenset] = dict(local_domains or {})
         self.uses: List[Use] = []
+        self.zero_divs: List[Tuple[ast.AST, Node, str]] = []
         self.in_states: Dict[int, List[Part]] = {}
         self.returns: List[Tuple[object, Part]] = []
         self.node_facts: Dict[int, List[Part]] = {}
@@ -505,7 +533,11 @@ class Interp:
             # t + c / t - c with constant c: used for "n_seasons - 1"
             lt, rt = self.term(e.left, p), self.term(e.right, p)
             if lt and rt and not lt.startswith("#") and rt.startswith("#") and not rt.startswith("#s"):
+                if rt in ("#0", "#0.0"):
+                    return lt
                 return f"({lt}{'+' if isinstance(e.op, ast.Add) else '-'}{rt[1:]})"
+            if lt and rt and lt in ("#0", "#0.0") and isinstance(e.op, ast.Add) and not rt.startswith("#"):
+                return rt
             return None
         if isinstance(e, ast.Call) and isinstance(e.func, ast.Name) and e.func.id in ("len", "int", "float") \
                 and len(e.args) == 1 and not e.keywords:
@@ -727,6 +759,9 @@ class Interp:
         l = self.eval(e.left, p, record)
         r = self.eval(e.right, p, record)
         f = self._BIN.get(type(e.op))
+        if isinstance(e.op, (ast.Div, ast.FloorDiv, ast.Mod)) and isinstance(r, Const) and isinstance(r.v, (int, float)) \
+                and not isinstance(r.v, bool) and r.v == 0 and record:
+            self.zero_divs.append((e, self._cur_node, p.pa.describe()))
         if f and isinstance(l, Const) and isinstance(r, Const) and isinstance(l.v, (int, float)) \
                 and isinstance(r.v, (int, float)):
             try:
@@ -831,6 +866,31 @@ class Interp:
             # unknown effect on the objects passed
             self._havoc_args(args + list(kw.values()), p)
             return TOP
+        # min / max with sign information (from constants, Sgn values and order facts on differences)
+        if isinstance(e.func, ast.Name) and e.func.id in ("max", "min") and e.func.id not in self.locals \
+                and not kw and len(args) == 2 and not all(isinstance(a, Const) for a in args):
+            signs = [sign_of(a) for a in args]
+            for i, (ae, sg) in enumerate(zip(e.args, signs)):
+                if sg == "?":
+                    signs[i] = self._diff_sign(ae, p)
+            if e.func.id == "max":
+                # max(0, x<=0) = 0 ; max(c>=0, anything) >= 0
+                for i in (0, 1):
+                    if signs[i] == "0" and signs[1 - i] in ("-", "0"):
+                        return Const(0)
+                if any(sg in ("+", "0") for sg in signs):
+                    return Sgn("+")
+                if all(sg == "-" for sg in signs):
+                    return Sgn("-")
+            else:
+                for i in (0, 1):
+                    if signs[i] == "0" and signs[1 - i] in ("+", "0"):
+                        return Const(0)
+                if any(sg in ("-", "0") for sg in signs):
+                    return Sgn("-")
+                if all(sg == "+" for sg in signs):
+                    return Sgn("+")
+            return TOP
         # builtins on constants
         if isinstance(e.func, ast.Name) and e.func.id not in self.locals and not kw:
             fn = e.func.id
@@ -853,9 +913,42 @@ class Interp:
                         return Const(str(vals[0]))
                 except Exception:
                     return TOP
+        ext = self.prog.external_name(self.fi, e.func) if isinstance(e.func, ast.Attribute) else None
+        if ext and ext.startswith("numpy.") and args and all(isinstance(a, Const) and isinstance(a.v, (int, float)) for a in args) and not kw:
+            import math
+            fn = ext.split(".", 1)[1]
+            try:
+                vals = [a.v for a in args]
+                tab = {"log": math.log, "exp": math.exp, "log10": math.log10, "sqrt": math.sqrt, "abs": abs,
+                       "floor": math.floor, "ceil": math.ceil, "power": lambda a, b: a ** b,
+                       "maximum": max, "minimum": min, "round": round, "float64": float, "int64": int}
+                if fn in tab:
+                    return Const(tab[fn](*vals))
+            except Exception:
+                return TOP
         # external call: objects passed are assumed not mutated (library contract A-10),
         # except through the explicitly listed in-place methods, which CP does not track.
         return TOP
+
+    def _diff_sign(self, e: ast.AST, p: Part) -> str:
+        """sign of an expression `a - b` from the order facts on (a, b); of a term from facts against 0"""
+        if isinstance(e, ast.BinOp) and isinstance(e.op, ast.Sub):
+            a, b = self.term(e.left, p), self.term(e.right, p)
+            if a and b:
+                r = p.pa.get(a, b)
+                if r <= frozenset("<="):
+                    return "-"
+                if r <= frozenset("=>"):
+                    return "+"
+            return "?"
+        t = self.term(e, p)
+        if t and not t.startswith("#"):
+            r = p.pa.get(t, "#0")
+            if r <= frozenset("<="):
+                return "-"
+            if r <= frozenset("=>"):
+                return "+"
+        return "?"
 
     def _havoc_args(self, vals, p: Part):
         for v in vals:
@@ -896,8 +989,8 @@ class Interp:
                     if pvals is not None and len(pvals) == 1:
                         pv[pos[i]] = Const(pvals[0]) if not isinstance(pv.get(pos[i]), Const) else pv[pos[i]]
         sub = Interp(self.prog, target, domains=self.domains, param_vals=pv, param_domains=pdom,
-                     init_heap=p.heap, interprocedural=True, part_key=self.part_key, depth=self.depth + 1,
-                     idioms=self.idioms)
+                     init_heap=p.heap, interprocedural=True, part_key="bound", depth=self.depth + 1,
+                     idioms=self.idioms, maxp=4)
         sub.run()
         self.sub_results = getattr(self, "sub_results", [])
         self.sub_results.append((call, target.key, sub))
@@ -1068,6 +1161,8 @@ class Interp:
             return (frozenset((k, b) for k, (v, b) in p.env.items()), p.tag,
                     frozenset((k, r) for k, r in p.pa.rel.items()
                               if self._stable_term(k[0]) and self._stable_term(k[1])))
+        if self.part_key == "vars":
+            return tuple(repr(p.env.get(v, (None, False))[0]) for v in self.split_vars)
         if self.part_key == "env":
             return (frozenset((k, repr(v), b) for k, (v, b) in p.env.items()),
                     frozenset((repr(k), repr(v)) for k, v in p.heap.items()))
